@@ -22,6 +22,7 @@ def run(res, programs, tier):
     for P in programs:
         if "dashu_int" in P.units:
             _r02_5(res, P, P.name)
+            _r02_6(res, P, P.name)
     intalg.r_sign_tables(res, programs, "R02.3", intalg.DIV_OPS)
     intalg.r01_2(res, programs, "R02.2", "div")
     from . import c19
@@ -194,3 +195,66 @@ def _r02_5(res, P, cfgname):
 LEVEL = LEVEL + ' Also (R02.4) the ConstDivisor path enters the long-division kernel whenever the dividend is at least as long as the divisor, and (R19.2, shared) no division step sits inside a debug assertion.'
 TECHNIQUE = 'static analysis of MIR: finite sign/convention tables (FDT) over all ownership forms, dispatcher-estimator agreement by abstract evaluation, must-pass-through zero-divisor guards, debug-region effect analysis'
 LEVEL = LEVEL + ' (R02.5) every call of the 2-by-1 division kernel passes a dividend whose high word is bounded by shape (its debug-only precondition).'
+
+
+# ---- R02.6: a count that is None for "unbounded" is never ordered with Option's derived ordering ---------------
+# trailing_zeros() / trailing_ones() return None for the operand whose run never ends (zero, resp. -1): None
+# stands for "infinitely many".  Option's derived ordering puts None *below* every Some(_), the opposite of that
+# meaning, so a `<` / `min` / `cmp` on such results decides the zero operand wrongly (0 is a multiple of
+# everything and has more trailing zeros than any divisor).  The results must be taken apart (match, if let,
+# unwrap, map, ...) before they are compared.
+import re as _re
+_NONE_UNBOUNDED = ("trailing_zeros", "trailing_ones", "trailing_ones_neg")
+# the comparison is recognised by its callee (the impl for Option, the provided methods of the traits, or the free
+# functions); its operand is known to be the Option itself because only copies / references of the result are followed
+_OPT_ORD = _re.compile(r"(Option<.*> as core::cmp::(PartialOrd|Ord)(<.*>)?>|^core::cmp::(PartialOrd|Ord))::(lt|le|gt|ge|partial_cmp|cmp|max|min|clamp)$"
+                       r"|^core::cmp::(max|min|max_by|min_by)(::<.*>)?$")
+
+
+def _r02_6(res, P, cfgname):
+    res.rule("R02.6", "an Option-valued bit count whose None means 'unbounded' (trailing_zeros / trailing_ones of 0 / -1) is never "
+                      "compared with Option's derived ordering (None < Some), which inverts that meaning")
+    n = 0
+    for f in P.fns():
+        body = f.get("mir")
+        if not body or not f["p"].startswith("dashu_"):
+            continue
+        prods = []
+        for bb, t, fr in mir.iter_calls(body):
+            cp = fr and (fr.get("rp") or fr["p"])
+            if cp and cp.rsplit("::", 1)[-1] in _NONE_UNBOUNDED and "dashu_" in cp and "Option" in str(body["locals"][t["d"]["l"]]):
+                prods.append((bb, t, cp))
+        if not prods:
+            continue
+        du = mir.defuse_of(body)
+        for k, (bb, t, cp) in enumerate(prods):
+            n += 1
+            # locals holding the result or a reference / copy of it (assignments only, not through calls)
+            seen, st = set(), [t["d"]["l"]]
+            while st:
+                l = st.pop()
+                if l in seen:
+                    continue
+                seen.add(l)
+                for (b2, idx, node) in du.uses.get(l, []):
+                    if idx != "t" and node["k"] == "as" and node["rv"]["k"] in ("use", "ref", "copy", "cast", "addr"):
+                        st.append(node["p"]["l"])
+            bad = None
+            for b2, t2, fr2 in mir.iter_calls(body):
+                cp2 = fr2 and (fr2.get("rp") or fr2["p"])
+                if not cp2 or not _OPT_ORD.search(cp2):
+                    continue
+                used = set()
+                mir.walk_places(t2["a"], lambda p: used.add(p["l"]))
+                if used & seen:
+                    bad = (cp2, t2)
+                    break
+            key = "%s|%s#%d" % (f["p"], cp.rsplit("::", 1)[-1], k)
+            if bad:
+                res.fail("R02.6", cfgname, key, "%s orders the Option result of %s with %s: None (unbounded) sorts below every Some(_)"
+                         % (f["p"], cp, bad[0]), mir.span_loc(bad[1].get("sp") or f["sp"]))
+            else:
+                res.ok("R02.6", cfgname, key, sample=dict(function=f["p"], producer=cp))
+    res.floor("R02.6", cfgname, n, 6, "uses of trailing_zeros / trailing_ones results")
+LEVEL = LEVEL + ' (R02.6) the Option results of trailing_zeros / trailing_ones, whose None stands for an unbounded run, are never ordered with Option\'s derived ordering (0 is a multiple of everything).'
+
